@@ -316,6 +316,8 @@ def run(out: core.Outcome) -> None:
                 out.violation({"trace": tr, "case": case, "fails": ["recorded schedule is not a behaviour of Parallel.tla"]})
             elif not (v["output"] and v["order"]):
                 out.violation({"trace": tr, "case": case, "fails": [k for k in ("output", "order") if not v[k]]})
+    if out.tier == "thorough":
+        _apalache(out)
     out.sample({"config": names[0], "schedules": "see parts"})
     out.explanation = out.rule
     out.assumptions = [
@@ -323,6 +325,34 @@ def run(out: core.Outcome) -> None:
         "a forced run whose recorded completion order differs from the intended one is not judged (counted in schedule_not_forced)",
         "the executor's call queue is FIFO (Strict=TRUE in the model; the log validation uses Strict=FALSE)",
     ]
+
+
+def _apalache(out):
+    """Unbounded schedules: IndInv of ParallelInd.tla is inductive (Apalache), and a non-inductive variant is refuted."""
+    import subprocess
+
+    d = core.WORK / f"apa-{os.getpid()}"
+    d.mkdir(parents=True, exist_ok=True)
+    res = {}
+    try:
+        for name, cinit, init, inv, length, expect_ok in (
+            ("init", "CInit", "Init", "IndInv", 0, True), ("step", "CInit", "IndInit", "IndInv", 1, True),
+            ("step-wide", "CInitWide", "IndInit", "IndInv", 1, True), ("step-serial", "CInitSerial", "IndInit", "IndInv", 1, True),
+            ("sanity-bogus", "CInit", "BogusInit", "Bogus", 1, False),
+        ):
+            r = subprocess.run(["apalache-mc", "check", f"--cinit={cinit}", f"--init={init}", f"--inv={inv}", f"--length={length}",
+                                f"--out-dir={d}/{name}", str(core.SPECS / "ParallelInd.tla")], capture_output=True, text=True, timeout=1500, cwd=d)
+            ok = "EXITCODE: OK" in r.stdout
+            res[name] = "holds" if ok else "counter-example" if "EXITCODE: ERROR (12)" in r.stdout else "error"
+            if res[name] == "error":
+                raise core.MachineryError(f"apalache {name}: {r.stdout[-800:]}")
+            if expect_ok and not ok:
+                out.violation({"apalache": name, "fails": ["inductive invariant of ParallelInd.tla does not hold"], "tail": r.stdout[-1500:]})
+            if not expect_ok and ok:
+                raise core.MachineryError("apalache accepted a non-inductive invariant (vacuous setup)")
+    finally:
+        shutil.rmtree(d, ignore_errors=True)
+    out.parts["apalache_inductive_invariant"] = res
 
 
 def _judge(out, scen, name, variant, sched, procs, res, serial, ev, n, w, none, expect_out, traces, trace_cases):
